@@ -40,6 +40,7 @@ fn add(rep: &mut Report, o: c19::Out) {
 fn main() {
     vh_common::install_panic_hook();
     let args = Args::parse();
+    vh_common::install_hang_watchdog(&args.prop);
     if args.prop == "replay" {
         let path = args.replay.clone().expect("replay file");
         let j = vh_common::parse_json(&std::fs::read_to_string(&path).expect("read")).expect("json");
@@ -86,6 +87,7 @@ fn main() {
                 let mut finds = Vec::new();
                 let mut i = wk as u64;
                 while i < n {
+                    let _case = vh_common::CaseGuard::new(format!("c17 case {}", i));
                     let mut c = c17::history(seed, i);
                     // verdicts that rest on a generous wall-clock watchdog are only believed if they repeat
                     if c.violations.first().map(|v| ["get_hang", "harness", "capacity", "unusable_connection_issued"].contains(&v.oracle)).unwrap_or(false) {
@@ -128,6 +130,7 @@ fn main() {
             let mut cov = Coverage::default();
             let mut finds = Vec::new();
             for i in 0..n_race {
+                let _case = vh_common::CaseGuard::new(format!("c17_ping_race case {}", i));
                 let c = c17::ping_race(seed, i);
                 cov.evaluations += 1;
                 cov.events += c.events;
